@@ -146,7 +146,7 @@ impl FileOptions {
     ///
     /// Range of values depends on compression method:
     /// * `Deflated`: 0 - 9. Default is 6
-    /// * `Bzip2`: 0 - 9. Default is 6
+    /// * `Bzip2`: 1 - 9. Default is 6
     /// * `Zstd`: -7 - 22, with zero being mapped to default level. Default is 3
     /// * others: only `None` is allowed
     #[must_use]
@@ -1119,7 +1119,8 @@ fn deflate_compression_level_range() -> std::ops::RangeInclusive<i32> {
 
 #[cfg(feature = "bzip2")]
 fn bzip2_compression_level_range() -> std::ops::RangeInclusive<i32> {
-    let min = bzip2::Compression::none().level() as i32;
+    // (libbz2 has no level 0: block sizes are 1 - 9, and the encoder panics on anything else)
+    let min = bzip2::Compression::fast().level() as i32;
     let max = bzip2::Compression::best().level() as i32;
     min..=max
 }
